@@ -148,3 +148,7 @@ V('C12', 'nc-issubclass-arity-eq-form', 'edb/schema/types.py',
   'edb.schema.types.Collection._issubclass',
   "        if len(parent_types) != len(my_types):\n            return False\n",
   "        if not (len(my_types) == len(parent_types)):\n            return False\n", None)
+
+# round 5: the stored seeded breaks this property's check reports, replayed as variants
+from sa.selftest import VP  # noqa
+VP('C12', 'C12-e3', 'C12.R12', 'returns-')
